@@ -188,8 +188,25 @@ def cycleFlags (st : Index) : List String :=
     | none => false
   let multi := names.any (fun n => (defsOf st.defs n).length ≥ 2)
   let alts := ((st.cyclesAlternatives).1.map (fun cy => sorted (cy.map (fun c => ">".intercalate c.path)))).eraseDups
+  -- a name-level edge that is not an edge of the resolved-definition graph
+  let offEdge := st.defs.any (fun d => d.deps.any (fun n =>
+    match (defsOf st.defs n).head? with
+    | some hd =>
+      let ix := if n == d.name then st.defs.filter (· != d) else st.defs
+      !(specAcceptable st ix d.file n).contains hd
+    | none => false))
   (if multi then ["multi-def-name"] else []) ++ (if alts.length > 1 then ["root-order"] else []) ++
+    (if offEdge then ["name-edge-unresolved"] else []) ++
     (if stale then ["stale-version-key"] else [])
+
+/-- the dependency graph of the PROPERTY (C16): nodes are definitions; `D` depends on what the
+    shadowing order selects for each requested name from `D`'s file (its own name resolves with
+    `D` set aside).  Printed as `D|dep=[acceptable…]` so the checker can close chains. -/
+def specDepGraph (st : Index) : String :=
+  ";".intercalate (st.defs.flatMap (fun d =>
+    d.deps.map (fun n =>
+      let ix := if n == d.name then st.defs.filter (· != d) else st.defs
+      s!"{defShort d}|{d.scope.asStr}|{n}={sorted ((specAcceptable st ix d.file n).map (fun e => defShort e ++ "|" ++ e.scope.asStr))}")))
 
 def cycleStr (c : Cycle) : String := s!"{">".intercalate c.path}@{defShort c.fixture}"
 
@@ -298,13 +315,21 @@ def runSpec (c : CaseSt) (t : List String) : Option String :=
     some ("-" ++ flagStr ((if us.eraseDups.length != us.length then ["dup-usage-recorded"] else []) ++ rf))
   | ["unused"] =>
     some ("-" ++ flagStr ((st.allUsages.flatMap (fun u => specFlags st (usageIx st u) u.file u.name)).eraseDups))
-  | ["cycles"] => some ("-" ++ flagStr (cycleFlags st))
+  | ["cycles"] => some ("-" ++ flagStr (cycleFlags st) ++ " GRAPH=" ++ specDepGraph st)
   | ["cyclesin", _] => some ("-" ++ flagStr (cycleFlags st))
   | ["mismatch", p] =>
     let f := pathOf p
     let deps := (st.defs.filter (·.file == f)).flatMap (·.deps)
     let multi := deps.any (fun n => (defsOf st.defs n).length ≥ 2)
-    some ("-" ++ flagStr (if multi then ["dep-multi-def"] else []))
+    -- the definition the scope check looks at (first registered under the name) is not the one
+    -- the shadowing order selects from this file
+    let headOff := (st.defs.filter (·.file == f)).any (fun d => d.deps.any (fun n =>
+      match (defsOf st.defs n).head? with
+      | some hd =>
+        let ix := if n == d.name then st.defs.filter (· != d) else st.defs
+        !(specAcceptable st ix f n).contains hd
+      | none => false))
+    some ("-" ++ flagStr ((if multi then ["dep-multi-def"] else []) ++ (if headOff then ["dep-head-not-resolved"] else [])))
   | _ => none
 
 def runOp (c : CaseSt) (t : List String) : String × CaseSt :=
